@@ -21,10 +21,14 @@
 (***************************************************************************)
 EXTENDS Integers, Sequences, TLC, Json
 CONSTANTS MaxOps, Decoy
-Fields == {"h", "hmin", "hmax", "rel", "abs", "nsteps", "adaptive", "stepper", "sw1", "sw2", "sw3", "sw4", "sw5", "mix", "grid"}
-Vals(f) == IF f \in {"adaptive", "sw1", "sw2", "sw3", "sw4", "sw5"} THEN {0, 1} ELSE {1, 2}
+Fields == {"h", "hmin", "hmax", "rel", "abs", "nsteps", "adaptive", "stepper", "sw1", "sw2", "sw3", "sw4", "sw5", "any", "mix", "grid"}
+Switches == {"sw1", "sw2", "sw3", "sw4", "sw5"}
+Vals(f) == IF f \in {"adaptive", "any"} \cup Switches THEN {0, 1} ELSE {1, 2}
 Default == [f \in Fields |-> IF f = "adaptive" THEN 1 ELSE 0]
-DecoyRec == [f \in Fields |-> IF f \in {"adaptive", "sw2", "sw3", "sw4", "sw5"} THEN 0 ELSE IF f = "sw1" THEN 1 ELSE 9]
+DecoyRec == [f \in Fields |-> IF f \in {"adaptive", "sw2", "sw3", "sw4", "sw5"} THEN 0 ELSE IF f \in {"sw1", "any"} THEN 1 ELSE 9]
+\* AnyNumerics is a field of its own: every term-switch setter recomputes it as the OR of the five switches (as coded),
+\* Set_AnyNumerics overrides it; a move hands over the flag itself, not a recomputation.
+AnyOf(r) == IF r["sw1"] = 1 \/ r["sw2"] = 1 \/ r["sw3"] = 1 \/ r["sw4"] = 1 \/ r["sw5"] = 1 THEN 1 ELSE 0
 
 VARIABLES cfg, alive, usable, cur, nops, hist
 vars == <<cfg, alive, usable, cur, nops, hist>>
@@ -32,7 +36,8 @@ Init == /\ cfg = [o \in {1,2} |-> IF o = 1 THEN Default ELSE DecoyRec]
         /\ alive = [o \in {1,2} |-> o = 1 \/ Decoy]
         /\ usable = [o \in {1,2} |-> o = 1 \/ Decoy]
         /\ cur = 1 /\ nops = 0 /\ hist = <<>>
-Set(f, v) == /\ cfg' = [cfg EXCEPT ![cur][f] = v]
+Set(f, v) == /\ cfg' = [cfg EXCEPT ![cur] = IF f \in Switches THEN [[@ EXCEPT ![f] = v] EXCEPT !["any"] = AnyOf([cfg[cur] EXCEPT ![f] = v])]
+                                                  ELSE [@ EXCEPT ![f] = v]]
              /\ hist' = Append(hist, <<"set", f, v>>)
              /\ UNCHANGED <<alive, usable, cur>>
 Other == 3 - cur
